@@ -114,6 +114,14 @@ impl Plan {
     pub fn shape_hash(&self) -> u64 {
         let mut h = crate::prng::LogHash::new();
         h.str(&self.mode);
+        if self.ops.is_empty() {
+            for (k, v) in &self.knobs {
+                if !k.contains("seed") {
+                    h.str(k);
+                    h.u64(*v);
+                }
+            }
+        }
         for op in &self.ops {
             h.str(op.k);
         }
@@ -174,7 +182,12 @@ impl Stats {
 
     pub fn merge(&mut self, other: &Stats) {
         for (k, v) in &other.counters {
-            self.add(k, *v);
+            if k.contains(".max_") {
+                let e = self.counters.entry(k.clone()).or_insert(0);
+                *e = (*e).max(*v);
+            } else {
+                self.add(k, *v);
+            }
         }
         for s in &other.states {
             self.state(*s);
@@ -192,7 +205,8 @@ impl Stats {
 }
 
 pub struct Outcome {
-    pub violation: Option<Violation>,
+    /// Every invariant that fired in this run (at most one per invariant id).
+    pub violations: Vec<Violation>,
     /// Hash of the run's event log (address free).
     pub log_hash: u64,
     /// Whether the run did something worth counting (world-specific rule).
